@@ -61,6 +61,15 @@ CHECKS["C09"] = dict(
    text="parallel with 0..3 branches (every succeed/fail assignment x completion orders by distinct virtual finish times, blocked and parked branches) and maps of 0..3 items x 14 completion configurations x max_concurrency {None,1,2}, followed by a replaying invocation; oracle: an independent reference model of the documented completion policy evaluated on the world's ground truth (never returns before decided, never waits after, items in input order with the branch's actual result/error or STARTED, reason consistent with statuses and policy, simultaneous bodies <= limit, replay delivers an equal BatchResult).",
    note=SIM_NOTE + " Where the documentation is contradictory (completely empty CompletionConfig) both fail-fast and tolerant behaviour are accepted.",
    technique=SIM_TECH + "; differential against a reference model of the completion policy", design="6/C09", engine="vsched+durable-sim")
+CHECKS["C12"] = dict(
+   text="(i) One step (top level and inside a parallel branch) x 8 retry strategies x 6 failure patterns x every crash point (pairs in thorough): strategy consulted with 1 + accepted retries, RETRY delay >= 1 and equal to the clamped decision, retries <= max_attempts-1, function runs exactly min(failures+1, max_attempts) times absent crashes, re-entry only after an accepted RETRY (or an explained crash), a decline is followed by an accepted FAIL, raised, and final. (ii) create_retry_strategy enumerated over 864 configurations x every attempt x 4-8 jitter values, error filters and the five presets against backoff/jitter bounds.",
+   note=SIM_NOTE, technique=SIM_TECH + "; plus bounded exhaustive enumeration of the packaged strategy configurations", design="6/C12", engine="vsched+durable-sim")
+CHECKS["C13"] = dict(
+   text="wait_for_condition over 10 initial states from the serializer's domain x 4 check functions x 6 decision tables (continue 0/1/3, stop, <=4 polls), inside a parallel branch, with a custom SerDes and with a failing check, under every crash point (pairs in thorough): the (state, poll number) sequence seen by the check function and the strategy, recorded RETRY delays, stop => SUCCEED with the last state as result, no poll after a terminal record, suspension only after a recorded continue. create_wait_strategy over a 675-config grid.",
+   note=SIM_NOTE, technique=SIM_TECH, design="6/C13", engine="vsched+durable-sim")
+CHECKS["C14"] = dict(
+   text="create_callback (with code between creation and result()), wait_for_callback and invoke in three placements x all terminal and non-terminal backend outcomes x delivery instant (at the START call, at a later call of the creating invocation, while PENDING, after an unrelated/spurious wake-up) x every crash point: callback id equals the backend-issued one in every invocation, create_callback never raises because of the outcome, result()/invoke suspend while outstanding and then deliver exactly the payload or raise (CallbackError for result()), exactly one invoke START carrying the serialized payload, target and tenant.",
+   note=SIM_NOTE, technique=SIM_TECH, design="6/C14", engine="vsched+durable-sim")
 NOT_YET = {}
 
 def main():
